@@ -12,16 +12,16 @@
      OaepDecode(EM, lHash, hLen, MGF) = <<"ok", M>> or <<"error", <<>>>>     (7.1.2 steps 1c and 3; MGF is an operator (seed, n))
    MGF1  appendix B.2.1:  Mgf1(H, hLen, seed, n),  Mgf1Sha1, Mgf1Sha256
    Hash and mask generation functions by name (what a trace record carries):
-     HashByName(h, m)  HLenOf(h)   h in "SHA1" "SHA256" "toy1" "toy2" "toy3"
+     HashByName(h, m)  HLenOf(h)   h in "SHA1" "SHA256" "toy1" "toy2" "toy3"  (HLenOf also knows "SHA384" "SHA512")
      MgfByName(g, seed, n)         g = [kind |-> "mgf1", hash |-> h]  or  [kind |-> "toy"]
      OaepDecodeNamed(EM, h, g, label)   OaepEncodeNamed(M, h, g, label, seed, k)
    The toy hash (1..3 octet digest) and the toy mask generation function are not cryptographic; the real API accepts
    caller-supplied ones through hashAlgo= / mgfunc=, and the recorder passes Python functions with these definitions,
    which makes an exhaustive sweep over small encoded messages affordable.
 
-   The module ends with ASSUMEs: encoded messages produced by OpenSSL 3.5 at authoring time (pkeyutl -encrypt, then
-   pkeyutl -decrypt with rsa_padding_mode:none to expose EM), MGF1 values produced with Python hashlib, and
-   Decode(Encode(M)) = M over small instances. *)
+   The module ends with ASSUMEs: a v1.5 encoded message produced by OpenSSL 3.5 at authoring time (pkeyutl -encrypt, then
+   pkeyutl -decrypt with rsa_padding_mode:none to expose EM) and Decode(Encode(M)) = M over small instances.  The anchors
+   that evaluate SHA-1 / SHA-256 (MGF1 values from Python hashlib, OAEP encoded messages from OpenSSL) are in data/PKCS1Kat. *)
 EXTENDS Bytes
 S1 == INSTANCE SHA1
 S256 == INSTANCE SHA256
@@ -69,6 +69,7 @@ Mgf1Sha1(seed, n) == Mgf1(Sha1H, 20, seed, n)
 Mgf1Sha256(seed, n) == Mgf1(Sha256H, 32, seed, n)
 HashNames == {"SHA1", "SHA256", "toy1", "toy2", "toy3"}
 HLenOf(h) == CASE h = "SHA1" -> 20 [] h = "SHA256" -> 32 [] h = "toy1" -> 1 [] h = "toy2" -> 2 [] h = "toy3" -> 3
+               [] h = "SHA384" -> 48 [] h = "SHA512" -> 64               \* lengths only (k < 2 hLen + 2): these two are not evaluated here
 HashByName(h, m) == CASE h = "SHA1" -> Sha1H(m) [] h = "SHA256" -> Sha256H(m) [] h = "toy1" -> Toy1H(m) [] h = "toy2" -> Toy2H(m) [] h = "toy3" -> Toy3H(m)
 MgfByName(g, seed, n) ==
    IF g.kind = "toy" THEN ToyMgf(seed, n)
@@ -103,31 +104,10 @@ OaepDecodeNamed(EM, h, g, label) ==
    ELSE OaepDecode(EM, HashByName(h, label), HLenOf(h), LAMBDA s, n : MgfByName(g, s, n))
 OaepEncodeNamed(M, h, g, label, seed, k) == OaepEncode(M, HashByName(h, label), seed, k, LAMBDA s, n : MgfByName(g, s, n))
 
-\* ------------------------------------------------------------------ anchors
-\* MGF1 values from Python hashlib
-ASSUME Mgf1Sha1(<<1,2,3>>, 45) = <<235,51,118,97,139,247,141,236,124,53,34,73,98,36,40,249,13,198,146,230,61,181,224,198,86,5,31,143,122,176,135,223,120,157,168,239,15,248,89,198,106,196,68,171,42>>
-ASSUME Mgf1Sha256([i \in 1..40 |-> i - 1], 70) = <<109,0,114,19,16,143,114,104,31,206,38,106,152,125,77,81,178,168,247,37,193,201,182,70,65,24,202,117,33,215,108,34,132,247,54,170,183,134,70,23,148,75,60,98,196,189,146,101,64,251,185,240,6,123,244,149,183,69,231,55,206,188,109,69,25,19,5,183,240,149>>
-ASSUME Mgf1Sha1(<<>>, 1) = <<144>> /\ Mgf1Sha1(<<>>, 0) = <<>>
+\* ------------------------------------------------------------------ anchors (the ones that need SHA-1 / SHA-256 are in data/PKCS1Kat: this
+\* module is EXTENDed by the trace specification, whose every start evaluates the ASSUMEs below)
 \* encoded messages produced by OpenSSL 3.5 for the message "hello OAEP"
 AMsg == <<104,101,108,108,111,32,79,65,69,80>>
-\* OAEP, SHA-1, MGF1-SHA-1, empty label, 512-bit key; the seed was recovered from EM with hashlib
-AE1 == <<0,155,252,143,120,236,121,128,148,74,53,86,115,66,222,223,191,64,44,189,87,183,90,93,150,93,47,2,60,53,225,74,211,250,99,15,117,78,213,244,71,250,12,185,56,166,59,151,135,184,67,47,173,67,88,165,218,94,176,168,11,11,210,102>>
-AE1seed == <<114,102,141,126,43,174,244,26,59,99,204,197,204,213,131,144,22,50,144,145>>
-ASSUME OaepDecode(AE1, Sha1H(<<>>), 20, Mgf1Sha1) = <<"ok", AMsg>>
-ASSUME OaepEncode(AMsg, Sha1H(<<>>), AE1seed, 64, Mgf1Sha1) = AE1
-ASSUME OaepDecodeNamed(AE1, "SHA1", [kind |-> "mgf1", hash |-> "SHA1"], <<>>) = <<"ok", AMsg>>
-ASSUME OaepDecodeNamed(AE1, "SHA1", [kind |-> "mgf1", hash |-> "SHA1"], <<0>>) = OaepErr          \* another label
-ASSUME OaepDecodeNamed(AE1, "SHA256", [kind |-> "mgf1", hash |-> "SHA256"], <<>>) = OaepErr         \* k = 64 < 2*32 + 2
-\* OAEP, SHA-256, MGF1-SHA-256, label 01 02 03 7f, 1024-bit key
-AE3 == <<0,126,252,171,164,5,82,188,227,169,103,211,131,11,141,51,107,119,209,30,162,7,110,86,139,74,14,131,176,15,253,74,230,100,128,121,90,99,108,104,142,177,138,208,209,90,5,89,234,142,189,84,222,223,201,40,148,180,90,219,115,31,61,230,94,81,40,88,174,142,153,93,122,215,254,155,156,240,8,118,250,102,250,186,227,191,159,169,71,219,125,99,183,163,230,185,211,5,147,12,226,178,38,8,132,111,142,214,38,66,248,26,80,203,51,38,190,225,140,81,19,212,178,152,25,101,211,56>>
-AE3seed == <<64,210,156,228,171,62,109,255,140,135,172,13,35,204,197,252,236,117,175,202,41,188,109,229,214,40,195,245,1,59,200,143>>
-ASSUME OaepDecodeNamed(AE3, "SHA256", [kind |-> "mgf1", hash |-> "SHA256"], <<1,2,3,127>>) = <<"ok", AMsg>>
-ASSUME OaepEncodeNamed(AMsg, "SHA256", [kind |-> "mgf1", hash |-> "SHA256"], <<1,2,3,127>>, AE3seed, 128) = AE3
-ASSUME OaepDecodeNamed(AE3, "SHA256", [kind |-> "mgf1", hash |-> "SHA256"], <<>>) = OaepErr
-\* OAEP, SHA-256 for the label, MGF1-SHA-1, empty label, 1024-bit key
-AE4 == <<0,134,105,209,1,88,195,166,91,38,15,74,20,93,251,71,168,239,200,0,251,109,217,128,9,8,197,42,193,43,131,156,213,118,148,133,182,89,204,133,118,19,28,230,230,69,32,220,90,24,74,1,173,101,202,114,222,143,145,146,148,233,61,176,215,203,244,134,216,214,122,2,10,148,182,88,128,218,156,196,101,200,2,7,230,98,159,176,36,28,80,89,22,51,73,162,126,188,25,246,241,67,108,216,173,92,33,109,70,225,47,90,166,97,145,226,161,202,59,196,248,21,158,182,155,168,10,212>>
-ASSUME OaepDecodeNamed(AE4, "SHA256", [kind |-> "mgf1", hash |-> "SHA1"], <<>>) = <<"ok", AMsg>>
-ASSUME OaepDecodeNamed([AE4 EXCEPT ![1] = 1], "SHA256", [kind |-> "mgf1", hash |-> "SHA1"], <<>>) = OaepErr      \* Y # 0
 \* PKCS#1 v1.5, 512-bit key
 AV1 == <<0,2,200,169,31,197,245,242,92,218,74,78,206,220,45,130,252,228,145,116,241,52,193,130,172,40,58,176,231,160,164,213,247,174,169,143,110,154,214,196,111,145,8,228,208,250,144,249,113,69,243,229,168,0,104,101,108,108,111,32,79,65,69,80>>
 ASSUME V15WellFormed(AV1) /\ V15Msg(AV1) = AMsg /\ V15IsEncodingOf(AV1, AMsg, 64)
@@ -142,7 +122,7 @@ ASSUME \A k \in 11..20 : /\ ~V15CanEncode(k, k - 10)
                                /\ V15CanEncode(k, ml) /\ V15IsEncodingOf(EM, M, k)
                                /\ V15Decode(EM, <<83>>, 0) = <<"msg", M>> /\ V15Decode(EM, <<83>>, ml) = <<"msg", M>>
                                /\ V15Decode(EM, <<83>>, ml + 1) = <<"sentinel", <<83>>>>
-ASSUME \A hl \in 1..3 : \A k \in ((2 * hl) + 2)..((2 * hl) + 9) :
+ASSUME \A hl \in 1..3 : \A k \in ((2 * hl) + 2)..((2 * hl) + 6) :
           LET h == <<"toy1", "toy2", "toy3">>[hl]  seed == [i \in 1..hl |-> (40 * i) + k] IN
           /\ ~OaepCanEncode(k, hl, k - (2 * hl) - 1)
           /\ \A g \in {[kind |-> "toy"], [kind |-> "mgf1", hash |-> h]} : \A ml \in 0..OaepMaxLen(k, hl) :
